@@ -33,6 +33,7 @@ TRIGGERS = [":keyword", ":param **kwargs:", "KWARGS!", "@kw", ":keyword"]
 
 class Prop(BaseProp):
     ID = "C03"
+    ANCHORS = ['cminx.aggregator:DocumentationAggregator.process_function', 'cminx.aggregator:DocumentationAggregator.process_macro', 'cminx.aggregator:DocumentationAggregator.process_cmake_parse_arguments', 'cminx.documentation_types:FunctionDocumentation.process', 'cminx.documentation_types:MacroDocumentation.process']
     LEVEL = "exploration"
     RULE = ("modules of function/macro definitions (0-4 parameters built as prefix+core+suffix for a strip-pattern "
             "family whose effect is known by construction; identifier/quoted/${ref}/bracket forms; names in 7 "
